@@ -77,6 +77,25 @@ fn variants() -> Vec<V> {
     add("engine", "set_pause.false-when-live", Need::Pauser, None, true, mk(|_w, _t| Box::new(move |w, who| { let a = w.engine.clone(); w.exec(who, &a, &EngineExec::SetPause { pause: false }, &[]) })));
     add("engine", "set_pause.false-when-paused", Need::Pauser, Some(pause), false, mk(|_w, _t| Box::new(move |w, who| { let a = w.engine.clone(); w.exec(who, &a, &EngineExec::SetPause { pause: false }, &[]) })));
     add("engine", "set_pause.true-when-paused", Need::Pauser, Some(pause), true, mk(|_w, _t| Box::new(move |w, who| { let a = w.engine.clone(); w.exec(who, &a, &EngineExec::SetPause { pause: true }, &[]) })));
+    // address-valued settings re-pointed by the owner at an account WITHOUT a role (the stranger):
+    // that account gains nothing; the non-role side of the role-gated entry points is checked again
+    fn repoint_feed(w: &mut World) {
+        let m = VammExec::UpdateConfig { base_asset_holding_cap: None, open_interest_notional_cap: None, toll_ratio: None, spread_ratio: None, fluctuation_limit_ratio: None, margin_engine: None, insurance_fund: None, pricefeed: Some(EVE.into()), spot_price_twap_interval: None };
+        assert!(w.vamm_exec(OWNER_NOW.with(|o| o.get()), 0, &m).ok);
+    }
+    fn repoint_fee_pool(w: &mut World) {
+        let a = w.engine.clone();
+        let m = EngineExec::UpdateConfig { owner: None, insurance_fund: None, fee_pool: Some(EVE.into()), initial_margin_ratio: None, maintenance_margin_ratio: None, partial_liquidation_ratio: None, liquidation_fee: None };
+        // (sent by whoever owns the engine in this deployment)
+        assert!(w.exec(OWNER, &a, &m, &[]).ok || w.exec("owner2", &a, &m, &[]).ok);
+    }
+    for (nm, flag) in [("set_open.false.after-pricefeed-repointed", false), ("set_open.true.after-pricefeed-repointed", true)] {
+        add("vamm", nm, Need::OwnerOrIns, Some(repoint_feed), true, mk(move |_w, _t| Box::new(move |w, who| { let a = w.vamms[0].clone(); w.exec(who, &a, &VammExec::SetOpen { open: flag }, &[]) })));
+    }
+    add("vamm", "settle_funding.after-pricefeed-repointed", Need::Engine, Some(repoint_feed), true, mk(|_w, _t| Box::new(move |w, who| { let a = w.vamms[0].clone(); w.exec(who, &a, &VammExec::SettleFunding {}, &[]) })));
+    add("vamm", "update_owner.after-pricefeed-repointed", Need::Owner, Some(repoint_feed), true, mk(|_w, _t| Box::new(move |w, who| { let a = w.vamms[0].clone(); w.exec(who, &a, &VammExec::UpdateOwner { owner: EVE.into() }, &[]) })));
+    add("engine", "set_pause.after-fee-pool-repointed", Need::Pauser, Some(repoint_fee_pool), true, mk(|_w, _t| Box::new(move |w, who| { let a = w.engine.clone(); w.exec(who, &a, &EngineExec::SetPause { pause: true }, &[]) })));
+    add("engine", "update_pauser.after-fee-pool-repointed", Need::Pauser, Some(repoint_fee_pool), true, mk(|_w, _t| Box::new(move |w, who| { let a = w.engine.clone(); w.exec(who, &a, &EngineExec::UpdatePauser { pauser: EVE.into() }, &[]) })));
     // list edits that ask for no change
     add("engine", "add_whitelist.already-listed", Need::Pauser, None, true, mk(|_w, _t| Box::new(move |w, who| { let a = w.engine.clone(); w.exec(who, &a, &EngineExec::AddWhitelist { address: ALICE.into() }, &[]) })));
     add("engine", "remove_whitelist.not-listed", Need::Pauser, None, true, mk(|_w, _t| Box::new(move |w, who| { let a = w.engine.clone(); w.exec(who, &a, &EngineExec::RemoveWhitelist { address: "stranger".into() }, &[]) })));
